@@ -479,8 +479,9 @@ def main(argv, here, repo):
               assumptions=list(getattr(mod, 'ASSUMPTIONS', [])),
               wall_s=round(time.time() - t0, 2),
               violations=sum(c for _, c, _ in confirmed))
-    os.makedirs(os.path.join(here, 'evidence'), exist_ok=True)
-    epath = os.path.join(here, 'evidence', pid + '.json')
+    edir = os.environ.get('VERIF_EVIDENCE_DIR') or os.path.join(here, 'evidence')
+    os.makedirs(edir, exist_ok=True)
+    epath = os.path.join(edir, pid + '.json')
     with open(epath, 'w') as f:
         f.write(json.dumps(json.loads(jdump(ev)), indent=1, sort_keys=True))
     if not validate_evidence(epath):
